@@ -363,7 +363,7 @@ func replayPush(c *core.Ctx, lfsBin string, b *behaviour, idx int) (viol *core.V
 				// with a file:// remote there is no batch API to learn that the remote already holds an
 				// object: git-lfs insists on the local copy.  The property does not promise success, so
 				// this is recorded (drift) and not judged; over http it has always held and is asserted.
-				if transport == "file" && !subset(toStrings(s["need"]), toSet(w.LocalOids())) {
+				if transport == "file" && !subset(append(toStrings(s["need"]), toStrings(s["mayNeed"])...), toSet(w.LocalOids())) {
 					c.AddInt("drift_file_remote_push_needs_local_copy", 1)
 					return nil, nil
 				}
@@ -391,6 +391,11 @@ func replayPush(c *core.Ctx, lfsBin string, b *behaviour, idx int) (viol *core.V
 		// RemoteComplete on the real world: whatever is reachable from the remote refs has its objects on the server
 		if r.Code == 0 && !subset(toStrings(s["remoteNeeds"]), afterSet) {
 			return mk("remote-complete", "a commit reachable on the remote references an object the server does not hold"), nil
+		}
+		if s.str("verdict") == "fail" && fmt.Sprint(before) != fmt.Sprint(after) {
+			// a failed push may have uploaded what it could before it failed; the specification's own
+			// transition leaves the server as it was, so its later predictions are void
+			return nil, nil
 		}
 		if s.str("verdict") == "either" || s.str("verdict") == "incomplete" {
 			// the run took one of the two allowed branches; later predictions of the spec assume success
